@@ -1,6 +1,7 @@
 SPECIFICATION TraceSpecFull
 CONSTANTS MaxSends = 0
           MaxSubs = 0
+          NCallers = 2
           Senders <- TSenders
           Chans <- TChans
           Cap <- TCap
